@@ -121,7 +121,22 @@ class SpatialEventProbability:
             ini, val == z3.If(occupied, z3.RealVal(1), z3.RealVal(0)))
 
 
+def _directed_gridding():
+    """concrete catalogs on a small lattice (conventions of rt/oracles_grid.gridding_counts): magnitudes below the first edge, on
+    an edge, above the last edge; events in holes and outside the box"""
+    lat = {'anchor': [-0.1, 0.2], 'dh': 0.1, 'cells': [[0, 0], [2, 1], [1, 0], [0, 1], [2, 0]], 'mask': [1, 1, 1, 1, 0]}
+    ev = lambda pts: [['e%d' % j, 1000 * j, y, x, 10.0, m] for j, (x, y, m) in enumerate(pts)]
+    cases = [[(-0.05, 0.25, 5.2), (0.15, 0.35, 4.0), (0.05, 0.25, 6.3)], [(-0.05, 0.25, 4.0)], [(-0.05, 0.25, 5.5), (-0.05, 0.35, 8.9), (0.05, 0.25, 4.99)],
+             [(-0.05, 0.25, 5.2), (0.05, 0.35, 5.2)], []]
+    fam = []
+    for pts in cases:
+        for bind in ('explicit', 'region'):
+            fam.append(('gridding_counts', dict(region={'lattice': lat}, mag_bins=[5.0, 5.5, 6.0], events=ev(pts), bind=bind)))
+    return fam
+
+
 class _MagCounts:
+    directed = staticmethod(_directed_gridding)
     qualname = CATCLS + '.magnitude_counts'
     oracle = 'catalog_magnitude_counts'
     properties = ('C03', 'C02')
@@ -207,6 +222,7 @@ class SMCLoop(LoopInv):
 
 @contract
 class SpatialMagnitudeCounts:
+    directed = staticmethod(_directed_gridding)
     qualname = CATCLS + '.spatial_magnitude_counts'
     case = 'Cartesian region (RI), explicit mag_bins'
     oracle = 'catalog_spatial_magnitude_counts'
